@@ -568,6 +568,21 @@ pub fn shrink_avp(a: &SpecAvp) -> Vec<SpecAvp> {
 }
 
 pub fn shrink_msg(m: &SpecMessage) -> Vec<SpecMessage> {
+    // stay inside the encodable domain: a control message's first AVP, if
+    // any, is a (non-hidden) Message Type
+    shrink_msg_raw(m)
+        .into_iter()
+        .filter(|c| match c {
+            SpecMessage::Control { avps, .. } => match avps.first() {
+                None => true,
+                Some(a) => a.attr == 0 && matches!(a.val, Val::Code(_)),
+            },
+            _ => true,
+        })
+        .collect()
+}
+
+fn shrink_msg_raw(m: &SpecMessage) -> Vec<SpecMessage> {
     let mut out = Vec::new();
     match m {
         SpecMessage::Control {
